@@ -140,7 +140,7 @@ def loadDependency (m : List (Cbor × Cbor)) (name : String) : R Cbor :=
   | none => .error .valueError
   | some (.bstr b) => match loads b with
     | none => .error .valueError
-    | some (.tag t v) => .ok (.tag t v)
+    | some (.tag 107 (.map mm)) => .ok (.tag 107 (.map mm))       -- an envelope: tag 107 of a map (anything else is refused)
     | some _ => .error .valueError
   | some _ => .error .valueError
 
